@@ -543,8 +543,28 @@ def json_same(got, exp, eqs):
     return isinstance(got, dict) and sorted(got) == sorted(v) and all(json_same(got[k], v[k], eqs) for k in v)
 
 
+BIG_NUMBERS = ["9007199254740993", "-9007199254740993", "123456789012345678901234567890", "18446744073709551617", "1" + "0" * 400, "4503599627370497"]
+
+
 def make_json(depth):
     def js(en):
+        if en.flag("big_number"):
+            # integers beyond the exactly representable floats: the documented subset has arbitrary-size integers, like json.loads
+            i = en.choice("big", len(BIG_NUMBERS))
+            wrap = en.choice("wrap", 3)
+            text = [BIG_NUMBERS[i], "[" + BIG_NUMBERS[i] + "]", '{"n": ' + BIG_NUMBERS[i] + "}"][wrap]
+            v = int(BIG_NUMBERS[i])
+            case = lambda mv: {"text": text}  # noqa
+            en.note_sample(case)
+            try:
+                got, err = json_parser.loads(text), None
+            except Exception as ex:  # noqa
+                got, err = None, ex
+            en.must_hold(err is None, "json", case, detail="valid document rejected: %r" % (err,))
+            if err is None:
+                want = [v, [v], {"n": v}][wrap]
+                en.must_hold(got == want and type(got) is type(want), "json", case, detail="a large integer was not parsed exactly: %r" % (got,))
+            return
         text, exp = json_docs(en, depth)
         case = lambda mv: {"text": mv.str(text) if isinstance(text, SStr) else text}  # noqa
         en.note_sample(case)
@@ -594,7 +614,7 @@ def obligations(tier):
                    outside=["quoted regexes"], encoded=[taglang.Regex.test, taglang.negate, taglang.oper], budget_s=300 if thorough else 60, replay="tag", check_sample=True),
         Obligation("O4-json", make_json(2 if thorough else 1), ["json"],
                    desc="JSON values of bounded shape rendered to text (symbolic digits and string characters) and parsed by the example grammar",
-                   bounds={"nesting depth": 2 if thorough else 1, "container size": "<= 2", "ints": "1-2 symbolic digits, optional sign", "strings": "<= 2 symbolic chars of %r, either quote kind" % STR_ALPHA},
+                   bounds={"nesting depth": 2 if thorough else 1, "container size": "<= 2", "ints": "1-2 symbolic digits, optional sign; 6 concrete integers beyond 2^53 (bare, in a list, in an object)", "strings": "<= 2 symbolic chars of %r, either quote kind" % STR_ALPHA},
                    outside=["floats with symbolic digits (float() is C code)", "escapes, unicode, scientific notation (outside the grammar's documented subset)"],
                    encoded=[json_parser.loads, P._make_number, P.String.process], budget_s=900 if thorough else 120, replay="json", check_sample=True),
     ]
